@@ -57,6 +57,11 @@ pub trait Check: Sync {
     fn shrink_iters(&self) -> u32 {
         3000
     }
+    /// domain-aware second shrinking pass: an equivalent smaller case, possibly in the encoding
+    /// of another part (which must be listed in the property's `checks()` for replay)
+    fn minimise(&self, _bytes: &[u8]) -> Option<(Box<dyn Check>, Vec<u8>)> {
+        None
+    }
 }
 
 #[derive(Clone, Debug, Default)]
@@ -320,7 +325,15 @@ pub fn run_pbt(ctx: &Ctx, check: &dyn Check, cases: u64) -> Part {
     let mut part = shared.inner.into_inner().unwrap();
     part.name = check.part().to_string();
     if let Some((bytes, f)) = found.into_inner().unwrap() {
-        let path = write_replay(ctx, check, &bytes, &f);
+        // second, domain-aware pass
+        let mut written = None;
+        if let Some((c2, b2)) = check.minimise(&bytes) {
+            let r2 = c2.run(&b2);
+            if let Some(f2) = unknown_failure(ctx, &r2, None) {
+                written = Some((write_replay(ctx, c2.as_ref(), &b2, &f2), f2));
+            }
+        }
+        let (path, f) = written.unwrap_or_else(|| (write_replay(ctx, check, &bytes, &f), f));
         part.violation = Some(Violation { sig: f.sig, what: f.what, replay: path });
     }
     part.wall_s = t0.elapsed().as_secs_f64();
